@@ -5,5 +5,5 @@ CONSTANTS
   InitRing = {"h1","h2","h3"}
   AtomicRelease = TRUE
 VIEW View
-INVARIANTS NoDoubleFree NoUseAfterFree NoLeak NoLostReference CounterExact
+INVARIANTS NoDoubleFree NoUseAfterFree NoLeak NoLostReference CounterExact NoLostChild
 CHECK_DEADLOCK FALSE
